@@ -9,7 +9,7 @@ from ..table import Tracer
 from ..resolve import Resolver
 from ..own import ReadOnly
 from ..escape import Escape, rule_entry, justified_table, dead_by_domain, enclosing_if
-from ..rules import canon_guard
+from ..rules import canon_guard, canon_text, equiv, equiv_folded
 from .. import common, spec, flow
 from . import c06
 
@@ -27,6 +27,12 @@ def run(ctx):
     rule_termination(ctx, repo, eng)
     rule_elements(ctx, repo)
     rule_error_state(ctx, repo)
+    # "the state captured in a raised evaluation error respects the interpreter's limits": every iteration that grows a
+    # stack ends in the stack-size guard, so no later error can capture more than the limit (C06.L2's obligation)
+    c06.rule_stack_limit_path(ctx, repo, it)
+    ctx.rules[-1].id = 'C07.L1'
+    for i_ in ctx.rules[-1].instances:
+        i_.rule = 'C07.L1'
     ctx.not_decided += ['loop-carried index bounds inside the multisig matching loop (relational invariant isig + sigs_count = const)',
                         'that the state captured in a raised error respects the limits, beyond the ordering rule C06.L1 multisig-op-count:order']
     ctx.assume('struct.error / OpenSSL behaviour inside libcrypto calls; list/bytes operations raise only IndexError on bad indices')
@@ -245,37 +251,42 @@ def rule_multisig_typestate(ctx, repo, it):
     r = ctx.rule('C07.G2', 'CHECKMULTISIG: the running bound is checked against the stack depth before every use as an index', engine='DEPTH', floor=3)
     ms = repo.get_function('bitcoin.core.scripteval._CheckMultiSig')
     ivar = 'i'
-    state = 'unchecked'
-    checked_val = None
+    guards = []  # raising guards passed since the bound was last changed: on fall-through none of them held
     n = 0
+
+    def established():
+        # len(stack) >= i holds after the guards iff  G1 or G2 or ... or len(stack) >= i  is valid; decided by the
+        # cell enumeration of the RULES engine over the single term i - len(stack)
+        if not guards:
+            return False
+        f = ' or '.join('(%s)' % g for g in guards + ['len(stack) >= %s' % ivar])
+        return equiv(f, 'True') is True
     for s in ms.node.body:
-        t = norm(s)
         if isinstance(s, ast.Assign) and norm(s.targets[0]) == ivar:
-            state = 'unchecked'
+            guards = []
         elif isinstance(s, ast.AugAssign) and norm(s.target) == ivar:
-            state = 'unchecked'
+            guards = []
         elif isinstance(s, ast.If):
-            tests = []
             cur = s
             while True:
-                tests.append((norm(cur.test), cur))
+                if flow.always_raises(cur.body, ['err_raiser']):
+                    guards.append(norm(cur.test))
                 if len(cur.orelse) == 1 and isinstance(cur.orelse[0], ast.If):
                     cur = cur.orelse[0]
                 else:
                     break
-            raising = [tt for tt, node in tests if flow.always_raises(node.body, ['err_raiser'])]
-            if 'len(stack) < %s' % ivar in raising:
-                state = 'checked'
         # uses: stack[-i] directly in this statement
         for sub in ast.walk(s):
             if isinstance(sub, ast.Subscript) and norm(sub.value) == 'stack' and norm(sub.slice) == '-%s' % ivar:
                 n += 1
-                r.check(state == 'checked', 'use:%d:%s' % (n, norm(sub)), common.site_of(ms, sub), 'bound checked before use',
+                r.check(established(), 'use:%d:%s' % (n, norm(sub)), common.site_of(ms, sub), 'bound checked before use',
                         '`stack[-%s]` is read while the bound `%s` has not been compared with len(stack) since it was last extended -> IndexError on short stacks' % (ivar, ivar))
-        if isinstance(s, ast.While) and norm(s.test) == '%s > 1' % ivar:
+        is_pop_loop = (isinstance(s, ast.While) and norm(s.test) == '%s > 1' % ivar) or \
+            (isinstance(s, ast.For) and norm(s.iter) in ('range(%s - 1)' % ivar, 'range(1, %s)' % ivar))
+        if is_pop_loop:
             n += 1
             pops = [x for x in ast.walk(s) if isinstance(x, ast.Call) and norm(x.func) == 'stack.pop']
-            r.check(state == 'checked' and len(pops) == 1, 'pop-loop', common.site_of(ms, s), 'pops i-1 items after len(stack) >= i was established',
+            r.check(established() and len(pops) == 1, 'pop-loop', common.site_of(ms, s), 'pops i-1 items after len(stack) >= i was established',
                     'the cleanup loop pops %s-1 items without an established bound len(stack) >= %s' % (ivar, ivar))
     # the final dummy pop: guarded by `len(stack)` in the NULLDUMMY test only - Core pops unconditionally after size check i
     r.note('the loop-carried indices isig/ikey inside the matching loop are not decided (relational invariant)')
